@@ -115,6 +115,40 @@ func scribbleFeed(p pushParser, doc []byte, cuts []int) error {
 	return nil
 }
 
+// scribbleFeedFinish is scribbleFeed with the last chunk delivered through
+// Parser.Parse (scratch buffer, overwritten afterwards) or Parser.ParseString.
+func scribbleFeedFinish(p pushParser, doc []byte, cuts []int, finish string) error {
+	fp, ok := p.(interface {
+		Parse([]byte) error
+		ParseString(string) error
+	})
+	if finish == "" || !ok {
+		return scribbleFeed(p, doc, cuts)
+	}
+	last := 0
+	var head []int
+	for _, c := range cuts {
+		if c > 0 && c < len(doc) {
+			head = append(head, c)
+			last = c
+		}
+	}
+	if last > 0 {
+		if err := scribbleFeed(p, doc[:last], head[:len(head)-1]); err != nil {
+			return err
+		}
+	}
+	if finish == "parsestring" {
+		return fp.ParseString(string(doc[last:]))
+	}
+	scratch := append(make([]byte, 0, 64), doc[last:]...)
+	err := fp.Parse(scratch)
+	for i := range scratch {
+		scratch[i] = 0xEE
+	}
+	return err
+}
+
 func checkC20(ci any, info *CaseInfo) string {
 	c := ci.(*C20Case)
 	typ := c20TargetType(c.Target)
